@@ -138,9 +138,11 @@ def real_unquote(s):
         return exc(e)
 
 
-def make_generic(scheme, user, pw, host, port, db, no_user_attr=False):
+def make_generic(scheme, user, pw, host, port, db, no_user_attr=False, charset=None):
     cls = env()['classes'][scheme]
     c = object.__new__(cls)
+    if charset is not None:
+        c.dbEncoding = charset      # where MySQLConnection / PostgresConnection keep their `charset=` option
     if not no_user_attr:
         c.user = user
     c.password, c.host, c.port, c.db = pw, host, port, db
@@ -228,6 +230,20 @@ PCT = ['%41', '%2F', '%2f', '%3A', '%40', '%25', '%zz', '%', '%4', '%%41', '%00'
        '%F1%80%80%41', '%E1%41', '%F1%41', '%F1%80%41', '+', '%2B', '%EF%BF%BD']
 
 
+ODD = '|^`{}\\"<>'
+
+
+def odd_everywhere(base):
+    """every URI-unreserved-but-odd character inserted at, and substituted at, every position of `base`"""
+    out = []
+    for ch in ODD:
+        for i in range(len(base) + 1):
+            out.append(base[:i] + ch + base[i:])
+            if i < len(base) and base[i] != '/':
+                out.append(base[:i] + ch + base[i + 1:])
+    return out
+
+
 def rstr(rng, maxlen=8, pct=0.15, nonascii=0.15):
     n = rng.choice([0, 1, 1, 2, 3, 3, 4, 5, maxlen])
     out = []
@@ -241,6 +257,8 @@ def rstr(rng, maxlen=8, pct=0.15, nonascii=0.15):
             out.append(rng.choice(RESERVED))
         elif r < pct + nonascii + 0.40:
             out.append(rng.choice(WHITE))
+        elif r < pct + nonascii + 0.47:
+            out.append(rng.choice(ODD))
         else:
             out.append(rng.choice(UNRESERVED))
     return ''.join(out)
@@ -288,6 +306,10 @@ def gen_port(rng):
     return rng.choice([0, -1, 65536, 70000, -65535, 10 ** 6, 2 ** 64, -0, 1, 65535])
 
 
+CHARSETS = ['utf8', 'latin1', 'koi8-r', 'ascii', 'cp1252', 'utf-16', 'latin-1', 'iso8859-15', 'big5', '']
+CHARSET_TEXTS = ['jos\xe9', 'p\xe4ss w/rd', 'pa\xdfwort', '\u65e5\u672c', '\u0431\u0430\u0437\u0430', '\u20ac', 'caf\xe9', '\xff', '\x80']
+
+
 def gen_generic(rng):
     scheme = rng.choice(['mysql', 'postgres', 'firebird', 'maxdb', 'mssql', 'sybase'])
     user = rng.choice([None, '', 'user', 'us:er', 'a/b']) if rng.random() < 0.35 else rstr(rng)
@@ -299,6 +321,15 @@ def gen_generic(rng):
     case = dict(scheme=scheme, user=user, pw=pw, host=gen_host(rng), port=gen_port(rng), db=db)
     if user is None and rng.random() < 0.3:
         case['no_user_attr'] = True
+    if rng.random() < 0.3:
+        # a connection configured with a database charset: the URI is still percent-encoded UTF-8
+        case['charset'] = rng.choice(CHARSETS)
+        if rng.random() < 0.7:
+            k = rng.choice(['user', 'pw', 'db'])
+            if k != 'pw' or case['user']:
+                case[k] = (case[k] or '') + rng.choice(CHARSET_TEXTS)
+                if k == 'user':
+                    case.pop('no_user_attr', None)
     return case
 
 
@@ -470,7 +501,8 @@ def check_generic_oracle(ctx, case, uri, err):
     if ok:
         return 'ok-' + hc
     what = 'parse(build(%r)): reported URI %s parses to %s, expected %r' % (generic_desc(case), short(uri, 100), text if t is None else got, want)
-    ctx.oracle_fail('C18:generic:%s' % json.dumps([case.get(k) for k in ('scheme', 'user', 'pw', 'host', 'port', 'db')],
+    ctx.oracle_fail('C18:generic:%s' % json.dumps([case.get(k) for k in ('scheme', 'user', 'pw', 'host', 'port', 'db')]
+                                                  + ([{'charset': case['charset']}] if case.get('charset') is not None else []),
                                                   ensure_ascii=True), what, case)
     return 'fail'
 
@@ -1045,6 +1077,14 @@ def run(ctx):
     # ---- generic builder ---------------------------------------------------------------------
     n_generic = ctx.budget(15000, 300000)
     generic_cases = [dict(c) for c in corpus.get('generic', [])]
+    for db in odd_everywhere('abc/de') + odd_everywhere('/ab'):
+        generic_cases.append(dict(scheme=('mysql', 'postgres')[len(generic_cases) % 2], user=None, pw=None, host='host', port=None, db=db))
+    for w in odd_everywhere('ab'):
+        generic_cases.append(dict(scheme='mysql', user=w, pw=w[::-1], host='host', port=3306, db='db'))
+    for cs in CHARSETS:
+        for t in CHARSET_TEXTS[:6]:
+            generic_cases.append(dict(scheme=('mysql', 'postgres')[len(generic_cases) % 2], user=t, pw=t + ' w/rd', host='dbhost', port=3306,
+                                      db=t, charset=cs))
     generic_cases += [gen_generic(rng) for _ in range(n_generic)]
     built = []
     for case in generic_cases:
@@ -1083,7 +1123,8 @@ def run(ctx):
 
     # ---- sqlite builder ----------------------------------------------------------------------
     n_sqlite = ctx.budget(6000, 100000)
-    files = list(corpus.get('sqlite', [])) + [gen_filename(rng) for _ in range(n_sqlite)]
+    files = list(corpus.get('sqlite', [])) + odd_everywhere('/abc/de.db') + odd_everywhere('/a') \
+        + [gen_filename(rng) for _ in range(n_sqlite)]
     for fn in files:
         uri, err = real_suri(fn)
         desc = {'filename': short(fn, 100)}
@@ -1298,6 +1339,8 @@ def replay(case):
     gc = {k: case[k] for k in ('scheme', 'user', 'pw', 'host', 'port', 'db')}
     if case.get('no_user_attr'):
         gc['no_user_attr'] = True
+    if case.get('charset') is not None:
+        gc['charset'] = case['charset']
     uri, err = real_guri(gc)
     check_generic_oracle(c, gc, uri, err)
     text = real_parse(uri)[0] if uri is not None else err
